@@ -63,6 +63,7 @@ var probes = map[string]bool{
 	"connPool.getConn":              true,
 	"connPool.doRPC":                true,
 	"storage.removeGTE":             true,
+	"storage.clearLog":              true,
 	"Raft.setCommitIndex":           true,
 	"follower.onTimeout":            true,
 	"connPool.returnConn":           true,
